@@ -15,7 +15,8 @@ Local Open Scope Z_scope.
    consensus code are exactly the classified ones. *)
 Theorem C06_inventory :
   map_range_sites = map (fun x : bytes * bytes * bytes * site_class => fst x) classified_sites /\
-  other_nondet_sites = classified_other.
+  other_nondet_sites = classified_other /\
+  map_range_function_crcs = classified_function_crcs.
 Proof. exact inventory_is_classified. Qed.
 Print Assumptions C06_inventory.
 
